@@ -137,7 +137,44 @@ def r14_6(ctx: Ctx) -> None:
               "the packed header is handed to the parser without being decoded to its declared size: a packed stream that ends early (torn append) is parsed as whatever was produced")
 
 
+def r14_9(ctx: Ctx) -> None:
+    """an append session overwrites the old header (it lies right behind the packed data) long before close() commits the new one, and the old
+    packed header may carry no digest (every archive written by py7zr before the F19 repair).  Before the first byte is written over it -
+    the Worker.archive call of write()/_writef() and the flush in _write_flush - the start header is replaced by the placeholder (a call that
+    reaches SignatureHeader._write_skeleton), so that no intermediate state can pass for an archive."""
+    def reaches_skeleton(f: Func, c: ast.Call, depth: int = 3) -> bool:
+        if attr_tail(c) == "_write_skeleton":
+            return True
+        if depth <= 0:
+            return False
+        for tq in shared.targets_of(ctx, f, c):
+            g = ctx.res._func_by_q(tq)
+            if g is not None and g.module == "py7zr" and any(reaches_skeleton(g, x, depth - 1) for x in q.calls(g)):
+                return True
+        return False
+    n = 0
+    for name, what in (("write", "Worker.archive"), ("_writef", "Worker.archive"), ("_write_flush", "flush")):
+        f = shared.szf(ctx, name)
+        cfg = cfg_of(f.node)
+        if what == "Worker.archive":
+            sinks = [c for c in q.calls(f) if "py7zr:Worker.archive" in shared.targets_of(ctx, f, c)]
+        else:
+            sinks = [c for c in q.calls(f) if attr_tail(c) in ("flush_archive", "_write_header")]
+        voids = [c for c in q.calls(f) if reaches_skeleton(f, c)]
+        for sgt in sinks:
+            n += 1
+            ok = any(cfg.dominates(q.node_for(f, v), q.node_for(f, sgt)) or
+                     (cfg.reaches(q.node_for(f, v), q.node_for(f, sgt)) and not cfg.reaches(cfg.entry, q.node_for(f, sgt), avoid=[q.node_for(f, v)] + [
+                         e for t in cfg.nodes if t.kind == "test" and "mode" in norm(t.ast) for e in t.succ if e.kind == "false"])) for v in voids)
+            ctx.check(ok, "R14.9", f, sgt, f"{name}: the start header is voided before the old header is overwritten",
+                      f"{name} lets `{norm(sgt)[:50]}` write over the old header of an archive opened for append while the old start header still verifies: when the old packed "
+                      "header has no digest (archives written by py7zr itself before it stored one) a crash leaves a file that opens without error as an empty archive",
+                      construct=f"{name} overwrites before voiding")
+    ctx.floor("R14.9", n, 4, "writes over the old header in append sessions")
+
+
 def run(ctx: Ctx) -> None:
+    r14_9(ctx)
     from . import c08 as _c08
     _c08.r08_13(ctx, rule="R14.8")  # an archive the parser rejects must never be replaced by a new one
     shared.strict_reads(ctx, "R14.7")
